@@ -236,7 +236,8 @@ typeadjust(struct type *t, enum typequal *tq)
 		*tq = ptrqual;
 		break;
 	case TYPEFUNC:
-		assert(*tq == QUALNONE);
+		if (*tq != QUALNONE)
+			error(&tok.loc, "parameter of function type cannot be qualified");
 		t = mkpointertype(t, QUALNONE);
 		break;
 	}
